@@ -66,3 +66,7 @@ impl VFuture for Delay {
 // errors
 #[verifier::external_body] pub struct DynErr { e: Box<dyn std::error::Error + Send + Sync> }
 pub type DynResult<T> = Result<T, DynErr>;
+
+// std::time::Duration as a ghost-comparable number (rule T2)
+pub fn duration_from_secs(s: u64) -> (r: u64) ensures r == s { s }
+pub fn duration_from_millis(ms: u64) -> (r: u64) ensures r == ms { ms }
